@@ -353,7 +353,7 @@ pub fn gen_universe(rng: &mut Rng, force_huge: Option<usize>) -> Vec<String> {
         // keys over boundary code points of the UTF-8 / UTF-16 encodings and over families of
         // characters that share their low 16 bits across planes (truncating or plane-shifting
         // comparisons collide there)
-        const BOUNDARY: [u32; 14] = [0x7f, 0x80, 0x7ff, 0x800, 0xd7ff, 0xe000, 0xfffd, 0xffff, 0x10000, 0x1ffff, 0xe0041, 0x10e000, 0x10fffd, 0x10ffff];
+        const BOUNDARY: [u32; 16] = [0x0, 0x1, 0x7f, 0x80, 0x7ff, 0x800, 0xd7ff, 0xe000, 0xfffd, 0xffff, 0x10000, 0x1ffff, 0xe0041, 0x10e000, 0x10fffd, 0x10ffff];
         let base = 0xe000 + rng.below(0x2000) as u32;
         let mut chars: Vec<char> = BOUNDARY.iter().filter_map(|c| char::from_u32(*c)).collect();
         for p in [0u32, 1, 2, 15, 16] { if let Some(c) = char::from_u32(base % 0x10000 + p * 0x10000) { chars.push(c); } }
